@@ -1,1 +1,672 @@
-//! shared helpers of this crate's checks
+//! Shared helpers of the vx-ul checks: single-party scripted transports (sync and async) whose every
+//! answer is either fixed in advance (a *script*) or an explorer choice, and a hand-rolled
+//! single-threaded executor. (The two-party scheduler of C29/C30 lives in `twoparty.rs`.)
+//!
+//! Conventions
+//! * every transport records what crossed it (`bytes()`), and counts calls/polls;
+//! * `Pending` is always returned after `wake_by_ref()`, like a real reactor that will re-poll;
+//! * explorer menus put the default environment answer first (choice 0) so that any other answer
+//!   costs one deviation (`vx_kit::explore`);
+//! * a transport stops asking the explorer after `budget` choice points and answers by default
+//!   from then on, so that unbounded exploration terminates.
+
+use std::collections::VecDeque;
+use std::future::Future;
+use std::io::{self, Read, Write};
+use std::pin::Pin;
+use std::sync::atomic::{AtomicUsize, Ordering};
+use std::sync::{Arc, Mutex};
+use std::task::{Context, Poll, RawWaker, RawWakerVTable, Waker};
+use tokio::io::{AsyncRead, AsyncWrite, ReadBuf};
+use vx_kit::Ctx;
+
+// ------------------------------------------------------------------------------------------------
+// executor
+
+static WAKE_COUNT: AtomicUsize = AtomicUsize::new(0);
+
+fn counting_waker() -> Waker {
+    fn clone(_: *const ()) -> RawWaker {
+        RawWaker::new(std::ptr::null(), &VTABLE)
+    }
+    fn wake(_: *const ()) {
+        WAKE_COUNT.fetch_add(1, Ordering::Relaxed);
+    }
+    fn noop(_: *const ()) {}
+    static VTABLE: RawWakerVTable = RawWakerVTable::new(clone, wake, wake, noop);
+    // SAFETY: the vtable functions never dereference the data pointer.
+    unsafe { Waker::from_raw(RawWaker::new(std::ptr::null(), &VTABLE)) }
+}
+
+/// Outcome of driving a future with [`drive`].
+#[derive(Debug)]
+pub enum Driven<T> {
+    Done { value: T, polls: usize },
+    /// The future returned `Pending` without anybody having called the waker since the previous
+    /// poll: under a real executor it would never be polled again (a lost wake-up).
+    Stalled { polls: usize },
+    /// more than `max_polls` polls
+    Runaway { polls: usize },
+}
+
+/// Poll `fut` to completion on the current thread with a counting waker (no reactor, no timers).
+/// A `Pending` that was not preceded by a wake-up is reported as `Stalled`.
+pub fn drive<F: Future>(fut: F, max_polls: usize) -> Driven<F::Output> {
+    let mut fut = std::pin::pin!(fut);
+    let waker = counting_waker();
+    let mut cx = Context::from_waker(&waker);
+    let mut polls = 0;
+    loop {
+        let before = WAKE_COUNT.load(Ordering::Relaxed);
+        polls += 1;
+        match fut.as_mut().poll(&mut cx) {
+            Poll::Ready(value) => return Driven::Done { value, polls },
+            Poll::Pending => {
+                // single-threaded use per future; other threads may bump the counter too, which can
+                // only hide a stall, never invent one — checks that rely on stall detection run the
+                // future with `drive_local` instead
+                if WAKE_COUNT.load(Ordering::Relaxed) == before {
+                    return Driven::Stalled { polls };
+                }
+                if polls >= max_polls {
+                    return Driven::Runaway { polls };
+                }
+            }
+        }
+    }
+}
+
+/// A waker with its own flag (exact stall detection also when many threads drive futures).
+pub struct FlagWaker {
+    flag: Arc<AtomicUsize>,
+}
+
+impl FlagWaker {
+    pub fn new() -> (Waker, Arc<AtomicUsize>) {
+        let flag = Arc::new(AtomicUsize::new(0));
+        let w = Arc::new(FlagWaker { flag: flag.clone() });
+        (Waker::from(w), flag)
+    }
+}
+
+impl std::task::Wake for FlagWaker {
+    fn wake(self: Arc<Self>) {
+        self.flag.fetch_add(1, Ordering::Relaxed);
+    }
+    fn wake_by_ref(self: &Arc<Self>) {
+        self.flag.fetch_add(1, Ordering::Relaxed);
+    }
+}
+
+/// Like [`drive`] with a private wake flag: exact lost-wake-up detection on any thread.
+pub fn drive_local<F: Future>(fut: F, max_polls: usize) -> Driven<F::Output> {
+    let mut fut = std::pin::pin!(fut);
+    let (waker, flag) = FlagWaker::new();
+    let mut cx = Context::from_waker(&waker);
+    let mut polls = 0;
+    loop {
+        let before = flag.load(Ordering::Relaxed);
+        polls += 1;
+        match fut.as_mut().poll(&mut cx) {
+            Poll::Ready(value) => return Driven::Done { value, polls },
+            Poll::Pending => {
+                if flag.load(Ordering::Relaxed) == before {
+                    return Driven::Stalled { polls };
+                }
+                if polls >= max_polls {
+                    return Driven::Runaway { polls };
+                }
+            }
+        }
+    }
+}
+
+/// A current-thread tokio runtime whose *context* can be entered (`rt.enter()`): needed only because
+/// `AsyncPDataWriter::drop` calls `tokio::runtime::Handle::current()`. Nothing is ever spawned on it.
+pub fn context_runtime() -> tokio::runtime::Runtime {
+    tokio::runtime::Builder::new_current_thread().build().expect("tokio current-thread runtime")
+}
+
+// ------------------------------------------------------------------------------------------------
+// write side
+
+/// One answer of a scripted writer.
+#[derive(Clone, Copy, Debug, PartialEq, Eq, Hash)]
+pub enum WAns {
+    /// accept everything offered
+    All,
+    /// accept one byte
+    One,
+    /// accept half of what is offered (rounded down, at least one byte)
+    Half,
+    /// (async only) not ready; the waker is called first
+    Pending,
+    /// return `Ok(0)`
+    Zero,
+    /// return an error
+    Err,
+}
+
+impl WAns {
+    pub fn name(self) -> &'static str {
+        match self {
+            WAns::All => "all",
+            WAns::One => "one",
+            WAns::Half => "half",
+            WAns::Pending => "pending",
+            WAns::Zero => "zero",
+            WAns::Err => "err",
+        }
+    }
+}
+
+/// The menu of the async writer, default first.
+pub const ASYNC_WRITE_MENU: [WAns; 6] = [WAns::All, WAns::One, WAns::Half, WAns::Pending, WAns::Zero, WAns::Err];
+/// The menu of the sync writer, default first.
+pub const SYNC_WRITE_MENU: [WAns; 5] = [WAns::All, WAns::One, WAns::Half, WAns::Zero, WAns::Err];
+
+/// How a scripted transport decides its next answer.
+pub enum Decide<A> {
+    /// always the default answer
+    Default,
+    /// the listed answers, then the default answer
+    Script(VecDeque<A>),
+    /// an explorer choice over `menu` for the first `budget` decisions, then the default answer
+    Explore { ctx: Ctx, menu: Vec<A>, budget: usize },
+}
+
+impl<A: Copy> Decide<A> {
+    pub fn script(v: impl IntoIterator<Item = A>) -> Self {
+        Decide::Script(v.into_iter().collect())
+    }
+    fn next(&mut self, default: A, allowed: impl Fn(A) -> bool) -> A {
+        match self {
+            Decide::Default => default,
+            Decide::Script(q) => q.pop_front().unwrap_or(default),
+            Decide::Explore { ctx, menu, budget } => {
+                if *budget == 0 {
+                    return default;
+                }
+                *budget -= 1;
+                let m: Vec<A> = menu.iter().copied().filter(|a| allowed(*a)).collect();
+                if m.len() <= 1 {
+                    return m.first().copied().unwrap_or(default);
+                }
+                m[ctx.choose(m.len())]
+            }
+        }
+    }
+}
+
+/// What a scripted writer saw and did (shared; stays readable after the writer was moved away).
+#[derive(Default, Debug)]
+pub struct WriteLog {
+    /// bytes accepted, in order
+    pub out: Vec<u8>,
+    /// every call/poll: (bytes offered, answer)
+    pub calls: Vec<(usize, WAns)>,
+    pub flushes: usize,
+    pub shutdowns: usize,
+}
+
+#[derive(Clone, Default)]
+pub struct WriteRec(pub Arc<Mutex<WriteLog>>);
+
+impl WriteRec {
+    pub fn bytes(&self) -> Vec<u8> {
+        self.0.lock().unwrap().out.clone()
+    }
+    pub fn calls(&self) -> Vec<(usize, WAns)> {
+        self.0.lock().unwrap().calls.clone()
+    }
+    pub fn count(&self, a: WAns) -> usize {
+        self.0.lock().unwrap().calls.iter().filter(|c| c.1 == a).count()
+    }
+}
+
+fn accept(rec: &WriteRec, buf: &[u8], ans: WAns) -> io::Result<usize> {
+    let mut g = rec.0.lock().unwrap();
+    g.calls.push((buf.len(), ans));
+    let n = match ans {
+        WAns::All => buf.len(),
+        WAns::One => buf.len().min(1),
+        WAns::Half => (buf.len() / 2).max(1).min(buf.len()),
+        WAns::Zero => 0,
+        WAns::Err => return Err(io::Error::new(io::ErrorKind::Other, "scripted write error")),
+        WAns::Pending => unreachable!(),
+    };
+    g.out.extend_from_slice(&buf[..n]);
+    Ok(n)
+}
+
+/// Scripted `std::io::Write`.
+pub struct ScriptWrite {
+    pub rec: WriteRec,
+    pub decide: Decide<WAns>,
+}
+
+impl ScriptWrite {
+    pub fn new(decide: Decide<WAns>) -> (Self, WriteRec) {
+        let rec = WriteRec::default();
+        (ScriptWrite { rec: rec.clone(), decide }, rec)
+    }
+    pub fn explored(ctx: &Ctx, budget: usize) -> (Self, WriteRec) {
+        Self::new(Decide::Explore { ctx: ctx.clone(), menu: SYNC_WRITE_MENU.to_vec(), budget })
+    }
+}
+
+impl Write for ScriptWrite {
+    fn write(&mut self, buf: &[u8]) -> io::Result<usize> {
+        // with 0 or 1 bytes offered One/Half coincide with All: do not branch on them
+        let len = buf.len();
+        let ans = self.decide.next(WAns::All, |a| match a {
+            WAns::Pending => false,
+            WAns::One => len > 1,
+            WAns::Half => len > 3,
+            _ => true,
+        });
+        accept(&self.rec, buf, ans)
+    }
+    fn flush(&mut self) -> io::Result<()> {
+        self.rec.0.lock().unwrap().flushes += 1;
+        Ok(())
+    }
+}
+
+/// Scripted `tokio::io::AsyncWrite`.
+pub struct ScriptAsyncWrite {
+    pub rec: WriteRec,
+    pub decide: Decide<WAns>,
+    /// never answer `Pending` twice in a row (keeps unbounded exploration finite and mirrors a
+    /// reactor that re-polls only when the socket became writable)
+    last_pending: bool,
+}
+
+impl ScriptAsyncWrite {
+    pub fn new(decide: Decide<WAns>) -> (Self, WriteRec) {
+        let rec = WriteRec::default();
+        (ScriptAsyncWrite { rec: rec.clone(), decide, last_pending: false }, rec)
+    }
+    pub fn explored(ctx: &Ctx, budget: usize) -> (Self, WriteRec) {
+        Self::new(Decide::Explore { ctx: ctx.clone(), menu: ASYNC_WRITE_MENU.to_vec(), budget })
+    }
+}
+
+impl AsyncWrite for ScriptAsyncWrite {
+    fn poll_write(mut self: Pin<&mut Self>, cx: &mut Context<'_>, buf: &[u8]) -> Poll<io::Result<usize>> {
+        let len = buf.len();
+        let lp = self.last_pending;
+        let ans = self.decide.next(WAns::All, |a| match a {
+            WAns::Pending => !lp,
+            WAns::One => len > 1,
+            WAns::Half => len > 3,
+            _ => true,
+        });
+        if ans == WAns::Pending {
+            self.last_pending = true;
+            self.rec.0.lock().unwrap().calls.push((len, WAns::Pending));
+            cx.waker().wake_by_ref();
+            return Poll::Pending;
+        }
+        self.last_pending = false;
+        Poll::Ready(accept(&self.rec, buf, ans))
+    }
+    fn poll_flush(self: Pin<&mut Self>, _cx: &mut Context<'_>) -> Poll<io::Result<()>> {
+        self.rec.0.lock().unwrap().flushes += 1;
+        Poll::Ready(Ok(()))
+    }
+    fn poll_shutdown(self: Pin<&mut Self>, _cx: &mut Context<'_>) -> Poll<io::Result<()>> {
+        self.rec.0.lock().unwrap().shutdowns += 1;
+        Poll::Ready(Ok(()))
+    }
+}
+
+// ------------------------------------------------------------------------------------------------
+// read side
+
+/// One answer of a scripted reader.
+#[derive(Clone, Copy, Debug, PartialEq, Eq, Hash)]
+pub enum RAns {
+    /// as much as is available and fits
+    All,
+    /// one byte
+    One,
+    /// half of what is available
+    Half,
+    /// exactly up to the next boundary (e.g. the end of the current PDU)
+    ToBoundary,
+    /// one byte past the next boundary
+    PastBoundary,
+    /// exactly `n` bytes (fixed segmentations; clipped to what is available and fits)
+    Exactly(usize),
+    /// (async only) not ready; the waker is called first
+    Pending,
+    /// an error
+    Err,
+}
+
+/// The menu of the async reader, default first.
+pub const ASYNC_READ_MENU: [RAns; 6] = [RAns::All, RAns::One, RAns::ToBoundary, RAns::PastBoundary, RAns::Half, RAns::Pending];
+/// The menu of the sync reader, default first.
+pub const SYNC_READ_MENU: [RAns; 5] = [RAns::All, RAns::One, RAns::ToBoundary, RAns::PastBoundary, RAns::Half];
+
+#[derive(Default, Debug)]
+pub struct ReadLog {
+    /// number of bytes delivered so far
+    pub pos: usize,
+    /// sizes of the non-empty deliveries, in order
+    pub deliveries: Vec<usize>,
+    /// read calls / polls (including Pending and EOF answers)
+    pub calls: usize,
+    pub pendings: usize,
+    pub eofs: usize,
+}
+
+#[derive(Clone, Default)]
+pub struct ReadRec(pub Arc<Mutex<ReadLog>>);
+
+impl ReadRec {
+    pub fn pos(&self) -> usize {
+        self.0.lock().unwrap().pos
+    }
+    pub fn calls(&self) -> usize {
+        self.0.lock().unwrap().calls
+    }
+    pub fn pendings(&self) -> usize {
+        self.0.lock().unwrap().pendings
+    }
+    pub fn deliveries(&self) -> Vec<usize> {
+        self.0.lock().unwrap().deliveries.clone()
+    }
+}
+
+/// Core shared by the sync and async scripted readers: a fixed byte string, then EOF.
+pub struct ReadCore {
+    pub data: Vec<u8>,
+    pub rec: ReadRec,
+    pub decide: Decide<RAns>,
+    /// ascending offsets in `data` that count as boundaries (PDU ends)
+    pub boundaries: Vec<usize>,
+    last_pending: bool,
+}
+
+impl ReadCore {
+    fn new(data: Vec<u8>, decide: Decide<RAns>, boundaries: Vec<usize>) -> Self {
+        ReadCore { data, rec: ReadRec::default(), decide, boundaries, last_pending: false }
+    }
+
+    /// Decide the next answer: `Ok(n)` bytes to deliver (0 = EOF), `Err(Some(e))` an error,
+    /// `Err(None)` Pending.
+    fn step(&mut self, cap: usize, allow_pending: bool) -> Result<usize, Option<io::Error>> {
+        let pos = self.rec.pos();
+        self.rec.0.lock().unwrap().calls += 1;
+        let avail = (self.data.len() - pos).min(cap);
+        if avail == 0 {
+            // EOF (or an empty caller buffer) is not a decision
+            self.rec.0.lock().unwrap().eofs += 1;
+            return Ok(0);
+        }
+        let to_b = self.boundaries.iter().find(|&&b| b > pos).map(|&b| b - pos);
+        let lp = self.last_pending;
+        let ans = self.decide.next(RAns::All, |a| match a {
+            RAns::All | RAns::Err | RAns::Exactly(_) => true,
+            RAns::One => avail > 1,
+            RAns::Half => avail / 2 > 1 && avail / 2 < avail,
+            RAns::ToBoundary => matches!(to_b, Some(k) if k > 1 && k < avail),
+            RAns::PastBoundary => matches!(to_b, Some(k) if k + 1 < avail),
+            RAns::Pending => allow_pending && !lp,
+        });
+        self.last_pending = false;
+        let n = match ans {
+            RAns::All => avail,
+            RAns::One => 1,
+            RAns::Half => (avail / 2).max(1),
+            RAns::ToBoundary => to_b.unwrap_or(avail).min(avail),
+            RAns::PastBoundary => (to_b.unwrap_or(avail) + 1).min(avail),
+            RAns::Exactly(k) => {
+                let n = k.clamp(1, avail);
+                if k > n {
+                    // the caller's buffer (or the data) is smaller than the segment: the rest of the
+                    // segment stays one segment
+                    if let Decide::Script(q) = &mut self.decide {
+                        q.push_front(RAns::Exactly(k - n));
+                    }
+                }
+                n
+            }
+            RAns::Pending => {
+                if !allow_pending {
+                    avail
+                } else {
+                    self.last_pending = true;
+                    self.rec.0.lock().unwrap().pendings += 1;
+                    return Err(None);
+                }
+            }
+            RAns::Err => return Err(Some(io::Error::new(io::ErrorKind::Other, "scripted read error"))),
+        };
+        let mut g = self.rec.0.lock().unwrap();
+        g.pos += n;
+        g.deliveries.push(n);
+        Ok(n)
+    }
+}
+
+/// Answers that deliver `data` in the given segment lengths, with `Pending` inserted before the
+/// deliveries whose index is in `pending_before` (async only).
+pub fn segment_script(segments: &[usize], pending_before: &[usize]) -> Decide<RAns> {
+    let mut v = Vec::new();
+    for (i, s) in segments.iter().enumerate() {
+        if pending_before.contains(&i) {
+            v.push(RAns::Pending);
+        }
+        if *s > 0 {
+            v.push(RAns::Exactly(*s));
+        }
+    }
+    Decide::script(v)
+}
+
+/// Scripted `std::io::Read`.
+pub struct ScriptRead(pub ReadCore);
+
+impl ScriptRead {
+    pub fn new(data: Vec<u8>, decide: Decide<RAns>, boundaries: Vec<usize>) -> (Self, ReadRec) {
+        let c = ReadCore::new(data, decide, boundaries);
+        let r = c.rec.clone();
+        (ScriptRead(c), r)
+    }
+    pub fn segmented(data: Vec<u8>, segments: &[usize]) -> (Self, ReadRec) {
+        Self::new(data, segment_script(segments, &[]), vec![])
+    }
+    pub fn explored(data: Vec<u8>, boundaries: Vec<usize>, ctx: &Ctx, budget: usize) -> (Self, ReadRec) {
+        Self::new(data, Decide::Explore { ctx: ctx.clone(), menu: SYNC_READ_MENU.to_vec(), budget }, boundaries)
+    }
+}
+
+impl Read for ScriptRead {
+    fn read(&mut self, buf: &mut [u8]) -> io::Result<usize> {
+        match self.0.step(buf.len(), false) {
+            Ok(n) => {
+                let pos = self.0.rec.pos();
+                buf[..n].copy_from_slice(&self.0.data[pos - n..pos]);
+                Ok(n)
+            }
+            Err(Some(e)) => Err(e),
+            Err(None) => unreachable!(),
+        }
+    }
+}
+
+/// Scripted `tokio::io::AsyncRead`.
+pub struct ScriptAsyncRead(pub ReadCore);
+
+impl ScriptAsyncRead {
+    pub fn new(data: Vec<u8>, decide: Decide<RAns>, boundaries: Vec<usize>) -> (Self, ReadRec) {
+        let c = ReadCore::new(data, decide, boundaries);
+        let r = c.rec.clone();
+        (ScriptAsyncRead(c), r)
+    }
+    pub fn segmented(data: Vec<u8>, segments: &[usize], pending_before: &[usize]) -> (Self, ReadRec) {
+        Self::new(data, segment_script(segments, pending_before), vec![])
+    }
+    pub fn explored(data: Vec<u8>, boundaries: Vec<usize>, ctx: &Ctx, budget: usize) -> (Self, ReadRec) {
+        Self::new(data, Decide::Explore { ctx: ctx.clone(), menu: ASYNC_READ_MENU.to_vec(), budget }, boundaries)
+    }
+}
+
+impl AsyncRead for ScriptAsyncRead {
+    fn poll_read(mut self: Pin<&mut Self>, cx: &mut Context<'_>, buf: &mut ReadBuf<'_>) -> Poll<io::Result<()>> {
+        match self.0.step(buf.remaining(), true) {
+            Ok(n) => {
+                let pos = self.0.rec.pos();
+                buf.put_slice(&self.0.data[pos - n..pos]);
+                Poll::Ready(Ok(()))
+            }
+            Err(Some(e)) => Poll::Ready(Err(e)),
+            Err(None) => {
+                cx.waker().wake_by_ref();
+                Poll::Pending
+            }
+        }
+    }
+}
+
+// ------------------------------------------------------------------------------------------------
+// sockets: a read script and a write script joined
+
+/// `Read + Write + CloseSocket` out of a scripted reader and a scripted writer.
+pub struct SyncSock {
+    pub r: ScriptRead,
+    pub w: ScriptWrite,
+    pub closed: Arc<AtomicUsize>,
+}
+
+impl SyncSock {
+    pub fn new(r: ScriptRead, w: ScriptWrite) -> Self {
+        SyncSock { r, w, closed: Arc::new(AtomicUsize::new(0)) }
+    }
+}
+
+impl Read for SyncSock {
+    fn read(&mut self, buf: &mut [u8]) -> io::Result<usize> {
+        self.r.read(buf)
+    }
+}
+impl Write for SyncSock {
+    fn write(&mut self, buf: &[u8]) -> io::Result<usize> {
+        self.w.write(buf)
+    }
+    fn flush(&mut self) -> io::Result<()> {
+        self.w.flush()
+    }
+}
+impl dicom_ul::association::CloseSocket for SyncSock {
+    fn close(&mut self) -> io::Result<()> {
+        self.closed.fetch_add(1, Ordering::Relaxed);
+        Ok(())
+    }
+}
+
+/// `AsyncRead + AsyncWrite` out of a scripted reader and a scripted writer.
+pub struct AsyncSock {
+    pub r: ScriptAsyncRead,
+    pub w: ScriptAsyncWrite,
+}
+
+impl AsyncRead for AsyncSock {
+    fn poll_read(mut self: Pin<&mut Self>, cx: &mut Context<'_>, buf: &mut ReadBuf<'_>) -> Poll<io::Result<()>> {
+        Pin::new(&mut self.r).poll_read(cx, buf)
+    }
+}
+impl AsyncWrite for AsyncSock {
+    fn poll_write(mut self: Pin<&mut Self>, cx: &mut Context<'_>, buf: &[u8]) -> Poll<io::Result<usize>> {
+        Pin::new(&mut self.w).poll_write(cx, buf)
+    }
+    fn poll_flush(mut self: Pin<&mut Self>, cx: &mut Context<'_>) -> Poll<io::Result<()>> {
+        Pin::new(&mut self.w).poll_flush(cx)
+    }
+    fn poll_shutdown(mut self: Pin<&mut Self>, cx: &mut Context<'_>) -> Poll<io::Result<()>> {
+        Pin::new(&mut self.w).poll_shutdown(cx)
+    }
+}
+
+#[cfg(test)]
+mod tests {
+    use super::*;
+    use tokio::io::{AsyncReadExt, AsyncWriteExt};
+
+    #[test]
+    fn async_write_script_and_stall_detection() {
+        let (mut w, rec) = ScriptAsyncWrite::new(Decide::script([WAns::One, WAns::Pending, WAns::Half]));
+        match drive_local(async { w.write_all(b"abcdefgh").await }, 100) {
+            Driven::Done { value, polls } => {
+                value.unwrap();
+                assert_eq!(polls, 2);
+            }
+            x => panic!("{x:?}"),
+        }
+        assert_eq!(rec.bytes(), b"abcdefgh");
+        assert_eq!(rec.calls().iter().map(|c| c.1).collect::<Vec<_>>(), [WAns::One, WAns::Pending, WAns::Half, WAns::All]);
+        // a future that returns Pending without waking is reported
+        struct Never;
+        impl Future for Never {
+            type Output = ();
+            fn poll(self: Pin<&mut Self>, _: &mut Context<'_>) -> Poll<()> {
+                Poll::Pending
+            }
+        }
+        assert!(matches!(drive_local(Never, 10), Driven::Stalled { polls: 1 }));
+    }
+
+    #[test]
+    fn read_segments() {
+        let data: Vec<u8> = (0..10).collect();
+        let (mut r, rec) = ScriptRead::segmented(data.clone(), &[3, 1, 6]);
+        let mut out = vec![];
+        let mut buf = [0u8; 4];
+        loop {
+            let n = r.read(&mut buf).unwrap();
+            if n == 0 {
+                break;
+            }
+            out.extend_from_slice(&buf[..n]);
+        }
+        assert_eq!(out, data);
+        assert_eq!(rec.deliveries(), [3, 1, 4, 2]);
+        let (mut r, rec) = ScriptAsyncRead::segmented(data.clone(), &[3, 7], &[0, 1]);
+        let mut out = vec![];
+        match drive_local(async { r.read_to_end(&mut out).await }, 100) {
+            Driven::Done { value, .. } => assert_eq!(value.unwrap(), 10),
+            x => panic!("{x:?}"),
+        }
+        assert_eq!(out, data);
+        assert_eq!(rec.pendings(), 2);
+    }
+
+    #[test]
+    fn explored_reader_enumerates_menu() {
+        let data: Vec<u8> = (0..12).collect();
+        let mut seen = std::collections::BTreeSet::new();
+        vx_kit::explore(Some(1), u64::MAX, |ctx| {
+            let (mut r, rec) = ScriptRead::explored(data.clone(), vec![4], ctx, 8);
+            let mut out = vec![];
+            let mut buf = [0u8; 64];
+            loop {
+                let n = r.read(&mut buf).unwrap();
+                if n == 0 {
+                    break;
+                }
+                out.extend_from_slice(&buf[..n]);
+            }
+            assert_eq!(out, data);
+            seen.insert(rec.deliveries());
+        })
+        .unwrap();
+        assert!(seen.contains(&vec![12]));
+        assert!(seen.contains(&vec![4, 8]));
+        assert!(seen.contains(&vec![5, 7]));
+        assert!(seen.contains(&vec![1, 11]));
+        assert!(seen.contains(&vec![6, 6]));
+    }
+}
